@@ -157,11 +157,14 @@ def solver_equiv_case(case):
             es.MaxTime = 2
             if reuse:
                 # the solver object has a past: the same block with other coefficients (a parameter sweep) was parsed and solved on it first
+                # (at concrete exogenous values: the past only has to have happened, it is not the subject)
+                ES.SYM_G = [2.0, 1.0, 3.0]
                 es.ParseString(sibling_of(block))
                 try:
                     es.SolveEquation()
                 except ValueError:
                     pass
+                ES.SYM_G = [2.0] + [SymReal(v) for v in g]
             es.ParseString(block)
             if trace:
                 es.TraceStep = trace
@@ -239,9 +242,11 @@ res = []
 for reduce in (True, False):
     es = EquationSolver(run_equation_reduction=reduce); es.MaxTime = 2
     if reuse:
+        ES.SYM_G = [2.0, 1.0, 3.0]
         es.ParseString(sibling_of(block))
         try: es.SolveEquation()
         except ValueError: pass
+        ES.SYM_G = [2.0] + g
     es.ParseString(block)
     if trace: es.TraceStep = trace
     es.SolveEquation(); res.append({v: list(es.TimeSeries[v]) for v in es.TimeSeries})
@@ -309,7 +314,7 @@ def run(tier, seed):
     chx.absorb(chk, HG, resg)
     scases = [(i, tr) for i in range(len(gb)) for tr in (None, 2) if tier != 'quick' or (i % 3 == 0 or (i // 2) % 4 == 1)]
     # ... and on solver objects that parsed and solved a sibling of the block (same names, other coefficients) before
-    scases += [(i, None, True) for i in range(len(gb)) if tier != 'quick' or i % 8 == 1]
+    scases += [(i, None, True) for i in range(len(gb)) if tier != 'quick' or i % 4 == 1]
     for st, o in pmap(solver_equiv_case, scases):
         if st != 'ok':
             chk.harness_errors.append(o[:800])
